@@ -311,6 +311,15 @@ impl<'tcx> Cx<'tcx> {
             j.set("uneval", J::s(format!("{:?}", c)));
             return j;
         }
+        // structured constants (enums like Some(Equal), tuples, arrays, small structs)
+        if matches!(ty.kind(), ty::Adt(..) | ty::Tuple(..) | ty::Array(..)) {
+            if let Ok(val) = c.eval(tcx, env, rustc_span::DUMMY_SP) {
+                if let Some(sj) = self.const_struct(val, ty, 0) {
+                    j.set("struct", sj);
+                    return j;
+                }
+            }
+        }
         // byte / str slices
         match c {
             Const::Val(ConstValue::Slice { alloc_id, meta }, _) => {
@@ -329,6 +338,61 @@ impl<'tcx> Cx<'tcx> {
             }
         }
         j
+    }
+
+    /// destructure an evaluated constant into {int} / {adt,variant,fields} / {tuple} / {array}
+    fn const_struct(&mut self, val: ConstValue, ty: Ty<'tcx>, depth: usize) -> Option<J> {
+        let tcx = self.tcx;
+        if depth > 6 {
+            return None;
+        }
+        let tj = self.ty(ty);
+        if ty.is_integral() || ty.is_bool() || ty.is_char() {
+            let si = val.try_to_scalar_int()?;
+            let size = si.size();
+            let bits = si.to_bits(size);
+            let mut j = J::obj().with("ty", tj);
+            if ty.is_signed() {
+                j.set("int", J::Int(size.sign_extend(bits) as i128));
+            } else {
+                j.set("int", J::UInt(bits));
+            }
+            return Some(j);
+        }
+        match ty.kind() {
+            ty::Adt(def, _) if !def.is_union() => {
+                let d = std::panic::catch_unwind(std::panic::AssertUnwindSafe(|| {
+                    tcx.try_destructure_mir_constant_for_user_output(val, ty)
+                }))
+                .ok()??;
+                let vi = d.variant.map(|v| v.as_usize()).unwrap_or(0);
+                let mut fs = Vec::new();
+                for (fv, fty) in d.fields.iter() {
+                    fs.push(self.const_struct(*fv, *fty, depth + 1)?);
+                }
+                self.adt(def.did());
+                Some(
+                    J::obj()
+                        .with("ty", tj)
+                        .with("adt", J::s(self.path(def.did())))
+                        .with("variant", J::UInt(vi as u128))
+                        .with("fields", J::Arr(fs)),
+                )
+            }
+            ty::Tuple(_) | ty::Array(..) => {
+                let d = std::panic::catch_unwind(std::panic::AssertUnwindSafe(|| {
+                    tcx.try_destructure_mir_constant_for_user_output(val, ty)
+                }))
+                .ok()??;
+                let mut fs = Vec::new();
+                for (fv, fty) in d.fields.iter() {
+                    fs.push(self.const_struct(*fv, *fty, depth + 1)?);
+                }
+                let k = if matches!(ty.kind(), ty::Tuple(_)) { "tuple" } else { "array" };
+                Some(J::obj().with("ty", tj).with(k, J::Arr(fs)))
+            }
+            _ => None,
+        }
     }
 
     fn operand(&mut self, o: &Operand<'tcx>, env: TypingEnv<'tcx>, mono: bool) -> J {
@@ -916,6 +980,42 @@ pub fn run<'tcx>(tcx: TyCtxt<'tcx>) {
         for (t, _) in ktypes.clone().iter() {
             add_trait_methods(&mut cx, tm, *t, &mut roots);
             add_trait_methods(&mut cx, tk, *t, &mut roots);
+        }
+    }
+    // comparison traits of the k-mer types (derived impls: eq / partial_cmp / cmp / lt …)
+    {
+        let li = tcx.lang_items();
+        let mut cmp_traits: Vec<DefId> = Vec::new();
+        if let Some(d) = li.eq_trait() {
+            cmp_traits.push(d);
+        }
+        if let Some(d) = li.partial_ord_trait() {
+            cmp_traits.push(d);
+        }
+        if let Some(d) = tcx.get_diagnostic_item(rustc_span::sym::Ord) {
+            cmp_traits.push(d);
+        }
+        for (t, _) in ktypes.iter() {
+            for tr in cmp_traits.iter() {
+                let n = tcx.generics_of(*tr).count();
+                let v: Vec<GenericArg<'tcx>> = (0..n).map(|_| GenericArg::from(*t)).collect();
+                for it in tcx.associated_items(*tr).in_definition_order() {
+                    if !it.is_fn() || tcx.generics_of(it.def_id).count() != n {
+                        continue;
+                    }
+                    let args = tcx.mk_args(&v);
+                    let r = std::panic::catch_unwind(std::panic::AssertUnwindSafe(|| {
+                        Instance::try_resolve(tcx, env_mono, it.def_id, args).ok().flatten()
+                    }));
+                    if let Ok(Some(inst)) = r {
+                        let meta = J::obj()
+                            .with("trait", J::s(cx.path(*tr)))
+                            .with("method", J::s(it.name().to_string()))
+                            .with("self", J::s(tystr(*t)));
+                        roots.push((inst, meta));
+                    }
+                }
+            }
         }
     }
     // containers
